@@ -7,6 +7,9 @@ from .core import Result
 from .lockstep import HarnessError, run_history
 
 VERSIONS = ["1.4", "1.5", "2.0", "2.1", "2.2"]
+# what a user may configure for the same protocol class (the library picks the class with "not version < class")
+SPELLINGS = {"1.4": ["1.4.0", "1.4.2"], "1.5": ["1.5.0", "1.5.4", "1.6"], "2.0": ["2.0.0", "2.0.1"],
+             "2.1": ["2.1.0", "2.1.1"], "2.2": ["2.2.0", "2.3", "2.3.2"]}
 
 
 def make_jobs(seed, njobs, nhist, length, versions, flavours, profile, mqtt_frac=0.0, tz=None):
@@ -67,6 +70,9 @@ def run_lock_job(prop, job, normal_forms, confirm_crash=False):
         flavour = job["flavours"][(hno // len(job["versions"])) % len(job["flavours"])]
         mqtt = rng.random() < job.get("mqtt_frac", 0)
         cfg = {"version": version, "flavour": flavour, "mqtt": mqtt}
+        if rng.random() < 0.2:
+            cfg["gw_version"] = rng.choice(SPELLINGS[version])
+            res.add_set("gateway_version_spellings", cfg["gw_version"])
         steps = gen.history(rng, version, job["length"], job["profile"])
         out = run_history(cfg, steps, props=(prop,))
         res.evals += len(steps)
